@@ -183,6 +183,7 @@ def add_mod(work, V, limit=6000):
     ok = tlc.run(work, 'AddMod', cfg='MC_AddMod.cfg', dump=True, timeout=1200)
     old = tlc.run(work, 'AddMod', cfg='MC_AddMod_prefix.cfg', timeout=600)
     adj = tlc.run(work, 'AddMod', cfg='MC_AddMod_adjacent.cfg', timeout=600)
+    unb = tlc.run(work, 'AddMod', cfg='MC_AddMod_unbounded.cfg', timeout=600)
     if not ok['ok']:
         V.note('mechanism-drift: AddMod violates %s' % ok['violation'])
     inits, finals = {}, {}
@@ -205,6 +206,7 @@ def add_mod(work, V, limit=6000):
                 V.note('mechanism-drift: add_mod(%r): model %s, code %s' % (k, want, o))
     return [{'module': 'AddMod', 'cfg': 'MC_AddMod.cfg', 'distinct_states': ok['distinct'], 'violation': ok['violation'], 'queries_replayed_into_code': len(cases), 'drift': drift},
             {'module': 'AddMod', 'cfg': 'MC_AddMod_prefix.cfg (add_mod before the fix)', 'distinct_states': old['distinct'], 'violation': old['violation'], 'expected_violation': 'InBounds or TextIsSlice'},
+            {'module': 'AddMod', 'cfg': 'MC_AddMod_unbounded.cfg (suffix modifiers searched beyond the next entity, before the second fix)', 'distinct_states': unb['distinct'], 'violation': unb['violation'], 'expected_violation': 'Disjoint'},
             {'module': 'AddMod', 'cfg': 'MC_AddMod_adjacent.cfg (outside the listed properties)', 'distinct_states': adj['distinct'], 'violation': adj['violation'], 'expected_violation': 'OnlyAdjacent'}]
 
 
